@@ -474,6 +474,15 @@ func (env *specEnv) evalCall(x *ECall) SVal {
 			return SVal{T: sCap(v.T), GoT: types.Typ[types.Int]}
 		}
 		specFail("cap of sort %s", v.T.Sort)
+	case "deref":
+		// deref(p): the value a pointer to a non-struct cell points to (*p)
+		v := arg(0)
+		pt, ok := types.Unalias(v.GoT).Underlying().(*types.Pointer)
+		if v.GoT == nil || !ok {
+			specFail("deref of a non-pointer")
+		}
+		a := env.f.addrOfPtr(v.T, v.GoT)
+		return SVal{T: env.f.load(env.heap, a), GoT: pt.Elem()}
 	case "base":
 		return SVal{T: sBase(arg(0).T)}
 	case "off":
